@@ -11,13 +11,15 @@
   (Gen.Sites: single-value type assertions, index and slice expressions, explicit panics,
   reflect calls) equals the list below, each entry with the reason it cannot fire — a new
   unchecked assertion or index expression in the source re-opens `sites_accounted`;
-  (2) the models return `Outcome`, in which a panic is an outcome: the theorems show the
-  modelled operations never produce it.  Stack exhaustion and runtime crashes cannot be
+  (2) the models return `Outcome`, in which a panic is an outcome: the theorems show that no
+  modelled operation — import, export, parse, print, CreateRow, GetRow, Export, ImportAtPath,
+  Stream — ever produces it, for any argument.  Stack exhaustion and runtime crashes cannot be
   exhibited by the model (harness only, nesting depth 10^4 as in the property).
 -/
 import Model.Template
 import Gen.Sites
 import Proofs.CastTyped
+import Proofs.NoPanic
 
 namespace Jl.C17
 open Jl Jl.Value Cast CastTyped
@@ -100,5 +102,53 @@ theorem setExisting_no_panic (ext : Ext) (c : Val) (x : Dyn) (s : String) :
 theorem cloneValue_no_panic (ext : Ext) (v : Val) (s : String) :
     cloneValue ⟨genTables, ext⟩ v ≠ .panic s :=
   newValue_no_panic ext _ _ _ s
+
+/-! ### Every modelled public operation, for every argument (`Proofs/NoPanic.lean`)
+
+The models return `Outcome`, in which a panic is an outcome guarded by the condition under
+which the Go code would panic (the single-value type assertions of `importFromBinary` and
+`exportToBinary`, the little-endian put/get on short buffers). None is reachable over the
+casters of the current source. -/
+
+open Jl.Template Jl.Stream in
+/-- `Value.Import` / `Row.Import*` (any nesting of rows, slices and maps). -/
+theorem import_no_panic (ext : Ext) (c : Val) (x : Dyn) (s : String) :
+    importVal ⟨genTables, ext⟩ c x ≠ .panic s := NoPanic.importVal_no_panic ext c x s
+
+/-- `Value.Export` / `Row.Export`. -/
+theorem export_no_panic (ext : Ext) (v : Val) (s : String) :
+    exportVal ⟨genTables, ext⟩ v ≠ .panic s := NoPanic.exportVal_no_panic ext v s
+
+/-- `Row.UnmarshalJSON` of any text into any row. -/
+theorem unmarshal_no_panic (ext : Ext) (o : List (Bytes × Val)) (text : Bytes) (s : String) :
+    unmarshalInto ⟨genTables, ext⟩ o text ≠ .panic s := NoPanic.unmarshalInto_no_panic ext o text s
+
+/-- `Row.MarshalJSON` of any row. -/
+theorem marshal_no_panic (ext : Ext) (ms : Members) (s : String) :
+    RowPrint.marshalRow ⟨genTables, ext⟩ ms ≠ .panic s := NoPanic.marshalRow_no_panic ext ms s
+
+/-- `Template.CreateRow` for every input kind, `CreateRowEmpty`. -/
+theorem createRow_no_panic (ext : Ext) (t : Jl.Template.Tmpl) (v : Dyn) (s : String) :
+    Jl.Template.createRow ⟨genTables, ext⟩ t v ≠ .panic s ∧
+    Jl.Template.createRowEmpty ⟨genTables, ext⟩ t ≠ .panic s :=
+  ⟨NoPanic.createRow_no_panic ext t v s, NoPanic.createRowEmpty_no_panic ext t s⟩
+
+/-- `Importer.GetRow`, `Exporter.Export`, and one line through both as jl does. -/
+theorem one_line_no_panic (ext : Ext) (ti to : Jl.Template.Tmpl) (line : Bytes) (v : Dyn) (s : String) :
+    Jl.Template.getRow ⟨genTables, ext⟩ ti line ≠ .panic s ∧
+    Jl.Template.exportLine ⟨genTables, ext⟩ to v ≠ .panic s ∧
+    Jl.Template.jlLine ⟨genTables, ext⟩ ti to line ≠ .panic s :=
+  ⟨NoPanic.getRow_no_panic ext ti line s, NoPanic.exportLine_no_panic ext to v s,
+   NoPanic.jlLine_no_panic ext ti to line s⟩
+
+/-- `Row.ImportAtPath` for every path (`GetValueAtPath` / `FindValuesAtPath` return options). -/
+theorem importAtPath_no_panic (ext : Ext) (row : List (Bytes × Val)) (path : Bytes) (x : Dyn) (s : String) :
+    Jl.Path.importAtPath ⟨genTables, ext⟩ row path x ≠ .panic s :=
+  NoPanic.importAtPath_no_panic ext row path x s
+
+/-- `Streamer.Stream` for every reader script (faults included), writer script and processor. -/
+theorem stream_no_panic (cfg : Jl.Stream.Cfg) (hT : cfg.env.T = genTables)
+    (reader : List Scanner.ReadEv) (writer : List Jl.Stream.WriteEv) (s : String) :
+    Jl.Stream.stream cfg reader writer ≠ .panic s := NoPanic.stream_no_panic cfg hT reader writer s
 
 end Jl.C17
